@@ -142,4 +142,123 @@ theorem reparsed_value (Γ : String → Option (Ty × Nat)) (ρ : Env) (e : Expr
     ∃ T, parse (print (ofExpr e)) = some T ∧ evalJ Γ ρ T = eval ρ e :=
   ⟨toJava (ofExpr e), print_parse_wf _ (wf_ofExpr e hf), evalJ_toJava Γ ρ e hl ht⟩
 
+/-! ## the rows of the translation table -/
+
+open AgVerif.Translate (Core Opd exprOf opdExpr regTy jenv javaOutcome regVal)
+open AgVerif.DalvikSem (Form)
+
+/-- `Γ` declares the variable of every register with the type an instruction of form `fm` reads it with
+    (the standing assumption of the per-instruction theorem) -/
+def DeclaresRegs (Γ : String → Option (Ty × Nat)) (fm : Form) : Prop :=
+  ∀ n : Nat, n < 4 → Γ ("v" ++ toString n) = some (regTy fm n, n)
+
+/-- the register operands of a row are among v0 … v3 (the rows are reflected on an instruction with fields 1, 2, 3) -/
+def opdBound : Opd → Bool
+  | .r n => decide (n < 4)
+  | .lit _ _ => true
+
+def coreBound : Core → Bool
+  | .bin _ a b | .lcmp a b | .cond _ a b => opdBound a && opdBound b
+  | .un _ a | .cast _ a | .const a | .condz _ a => opdBound a
+
+/-- a declaration of v0 … v3 for a form (shows `DeclaresRegs` is satisfiable) -/
+def declFor (fm : Form) : String → Option (Ty × Nat) := fun s =>
+  if s = "v" ++ toString 0 then some (regTy fm 0, 0) else if s = "v" ++ toString 1 then some (regTy fm 1, 1)
+  else if s = "v" ++ toString 2 then some (regTy fm 2, 2) else if s = "v" ++ toString 3 then some (regTy fm 3, 3)
+  else none
+
+theorem declFor_declares (fm : Form) : DeclaresRegs (declFor fm) fm := by
+  intro n hn
+  match n, hn with
+  | 0, _ => simp [declFor]
+  | 1, _ => unfold declFor; rw [if_neg (by decide), if_pos rfl]
+  | 2, _ => unfold declFor; rw [if_neg (by decide), if_neg (by decide), if_pos rfl]
+  | 3, _ => unfold declFor; rw [if_neg (by decide), if_neg (by decide), if_neg (by decide), if_pos rfl]
+
+/-- how `javaOutcome` reads the result of evaluating the expression of a row -/
+def classify (c : Core) (res : Except Err Val) : Option DalvikSem.Outcome :=
+  match res with
+  | .error .compile => none
+  | .error .arith => (match c with
+      | .cond .. | .condz .. => none
+      | _ => some (.value (.error .arith)))
+  | .ok v => (match c with
+      | .cond .. | .condz .. => (match v with | .bool b => some (.branch b) | _ => none)
+      | _ => (regVal v).map fun x => .value (.ok x))
+
+theorem javaOutcome_eq (fm c ρ lit) : javaOutcome fm c ρ lit = classify c (eval (jenv ρ) (exprOf fm lit c)) := by
+  unfold javaOutcome classify; rfl
+
+theorem arith_opd (fm lit a) : Translate.Arith (opdExpr fm lit a) := by
+  cases a <;> simp [opdExpr, Translate.Arith]
+
+theorem frag_exprOf (fm lit c) : Frag (exprOf fm lit c) := by
+  cases c with
+  | const a => cases a <;> simp [exprOf, opdExpr, Frag, Translate.Arith]
+  | _ => simp [exprOf, Frag, Translate.Arith, arith_opd]
+
+theorem typed_opd {Γ fm} (h : DeclaresRegs Γ fm) (lit a) (hb : opdBound a = true) : Typed Γ (opdExpr fm lit a) := by
+  cases a with
+  | r n => exact h n (by simpa [opdBound] using hb)
+  | lit _ _ => trivial
+
+theorem typed_exprOf {Γ fm} (h : DeclaresRegs Γ fm) (lit c) (hb : coreBound c = true) : Typed Γ (exprOf fm lit c) := by
+  cases c <;> simp [coreBound] at hb <;> simp [exprOf, Typed, typed_opd h, hb]
+
+/-- an operand is a variable or a literal: it evaluates, or the literal is out of range (a compile error) -/
+theorem opd_dichotomy (ρ : Env) (fm lit a) :
+    (LitsOK (opdExpr fm lit a) ∧ ∃ v, eval ρ (opdExpr fm lit a) = .ok v) ∨
+      eval ρ (opdExpr fm lit a) = .error .compile := by
+  cases a with
+  | r n =>
+    left
+    refine ⟨trivial, ?_⟩
+    simp only [opdExpr, eval, evalVar]
+    cases regTy fm n <;> exact ⟨_, rfl⟩
+  | lit neg long =>
+    simp only [opdExpr, eval, LitsOK, evalLit]
+    cases long
+    · by_cases h : -(2 : Int) ^ 31 ≤ (if neg then -lit else lit) ∧ (if neg then -lit else lit) < (2 : Int) ^ 31
+      · left; exact ⟨by simpa using h, _, by rw [if_neg (by simp), if_pos h]⟩
+      · right; rw [if_neg (by simp), if_neg h]
+    · by_cases h : -(2 : Int) ^ 63 ≤ (if neg then -lit else lit) ∧ (if neg then -lit else lit) < (2 : Int) ^ 63
+      · left; exact ⟨by simpa using h, _, by rw [if_pos rfl, if_pos h]⟩
+      · right; rw [if_pos rfl, if_neg h]
+
+theorem lits_exprOf (ρ : Env) (fm lit c) (h : eval ρ (exprOf fm lit c) ≠ .error .compile) :
+    LitsOK (exprOf fm lit c) := by
+  cases c with
+  | const a =>
+    rcases opd_dichotomy ρ fm lit a with ⟨hl, _⟩ | he
+    · simpa [exprOf] using hl
+    · exact absurd (by simpa [exprOf] using he) h
+  | un o a | cast o a =>
+    rcases opd_dichotomy ρ fm lit a with ⟨hl, _⟩ | he
+    · simpa [exprOf, LitsOK] using hl
+    · exact absurd (by simp [exprOf, eval, he, bind, Except.bind]) h
+  | condz o a =>
+    rcases opd_dichotomy ρ fm lit a with ⟨hl, _⟩ | he
+    · simp [exprOf, LitsOK, hl]
+    · exact absurd (by simp [exprOf, eval, he, bind, Except.bind]) h
+  | bin o a b | lcmp a b | cond o a b =>
+    rcases opd_dichotomy ρ fm lit a with ⟨hla, va, hva⟩ | he
+    · rcases opd_dichotomy ρ fm lit b with ⟨hlb, _⟩ | he
+      · simp [exprOf, LitsOK, hla, hlb]
+      · exact absurd (by simp [exprOf, eval, hva, he, bind, Except.bind]) h
+    · exact absurd (by simp [exprOf, eval, he, bind, Except.bind]) h
+
+/-- a row whose Java text has an outcome: the printed lexemes re-parse to a tree whose JLS value, read the way
+    `javaOutcome` reads it, is that outcome -/
+theorem row_reparsed (fm : Form) (c : Core) (ρ : DalvikSem.Env) (lit : Int) (Γ : String → Option (Ty × Nat))
+    (hd : DeclaresRegs Γ fm) (hb : coreBound c = true) (out : DalvikSem.Outcome)
+    (h : javaOutcome fm c ρ lit = some out) :
+    ∃ T, parse (print (ofExpr (exprOf fm lit c))) = some T ∧ classify c (evalJ Γ (jenv ρ) T) = some out := by
+  have hne : eval (jenv ρ) (exprOf fm lit c) ≠ .error .compile := by
+    intro he
+    rw [javaOutcome_eq, he] at h
+    simp [classify] at h
+  obtain ⟨T, hp, hv⟩ := reparsed_value Γ (jenv ρ) _ (frag_exprOf fm lit c) (lits_exprOf _ fm lit c hne)
+    (typed_exprOf hd lit c hb)
+  exact ⟨T, hp, by rw [hv, ← javaOutcome_eq]; exact h⟩
+
 end AgVerif.JExpr
